@@ -514,6 +514,11 @@ def align_up(rep, idx, rule):
         return
     r = rets[0]
     aligned_test = c.parse("value % (1 << alignment) != 0")
+    if r[0] == 'phi':
+        # the remainder of an integer used as a condition is its comparison with zero
+        b_, neg_ = ir.split_neg(r[1])            # neg_ is the polarity: True when the remainder itself is the condition
+        if b_ in (c.parse("value % (1 << alignment)"), c.parse("value & ((1 << alignment) - 1)")):
+            r = ('phi', aligned_test if neg_ else c.norm(('un', 'not', aligned_test)), r[2], r[3])
     if r[0] == 'phi' and ir.split_neg(r[1])[0] == ir.split_neg(aligned_test)[0]:
         pol = ir.split_neg(r[1])[1] == ir.split_neg(aligned_test)[1]
         adj, keep = (r[2], r[3]) if pol else (r[3], r[2])
@@ -867,6 +872,7 @@ def param_refusals(rep, rule, idx, only=None):
         fe = c.t.final_env
         for p_ in c.fi.params:
             v = fe.get(p_)
+            v = c.norm(v) if isinstance(v, tuple) and v and isinstance(v[0], str) else v
             if isinstance(v, tuple) and v != ('name', p_) and v[0] == 'phi':
                 env[p_] = v
         try:
